@@ -28,6 +28,10 @@ class ParallelEvaluator(Evaluator):
             if not ind.has_fitness(problem) and not any(ind is p for p in pending):
                 pending.append(ind)
         if pending:
+            for ind in pending:
+                # mapped here, not on the worker's copy: a mapping that completes the genotype
+                # (dynamic structured GE) would be lost, and the fitness would belong to another program
+                ind.get_phenotype()
             with Pool(len(pending)) as pool:
                 fitnesses = pool.map(mapper, pending)
             for i, f in zip(pending, fitnesses):
